@@ -184,11 +184,10 @@ def triads(key):
 
     Implemented using a cache.
     """
-    if key in _triads_cache:
-        return _triads_cache[key]
-    res = [triad(x, key) for x in keys.get_notes(key)]
-    _triads_cache[key] = res
-    return res
+    if key not in _triads_cache:
+        _triads_cache[key] = [triad(x, key) for x in keys.get_notes(key)]
+    # hand out copies: the caller owns the result, the cache rows stay private
+    return [list(chord) for chord in _triads_cache[key]]
 
 
 def major_triad(note):
@@ -247,11 +246,10 @@ def seventh(note, key):
 
 def sevenths(key):
     """Return all the sevenths chords in key in a list."""
-    if key in _sevenths_cache:
-        return _sevenths_cache[key]
-    res = [seventh(x, key) for x in keys.get_notes(key)]
-    _sevenths_cache[key] = res
-    return res
+    if key not in _sevenths_cache:
+        _sevenths_cache[key] = [seventh(x, key) for x in keys.get_notes(key)]
+    # hand out copies: the caller owns the result, the cache rows stay private
+    return [list(chord) for chord in _sevenths_cache[key]]
 
 
 def major_seventh(note):
